@@ -716,7 +716,7 @@ func checkMain(args []string) int {
 	}
 	fmt.Printf("verifsim: %s %s: %d runs (%d non-trivial, %d distinct fingerprints), %d prepass cases, %.1fs, %d known finding(s), %d new violation(s)\n",
 		chk.ID, *tier, total.Runs, total.Nontrivial, len(fps), total.PrePass, wall, len(knownHit), newViolations)
-	if *tier == "thorough" {
+	if *tier == "thorough" && *onlyCfg == "" { // the probes belong to the first pass's worlds
 		for _, p := range chk.ProbeNames {
 			if total.Stats.Probes[p] == 0 {
 				fmt.Printf("verifsim: WARNING probe %q was never hit\n", p)
